@@ -255,6 +255,19 @@ func c17Exec(r *vf.Run, cfg c17Cfg, c *vf.Chooser) (keys, whats []string) {
 		}
 	}
 	r.Outcome(verdict)
+	r.Outcome(fmt.Sprintf("reached/stall/entry=%s/tls=%s", entry, c17TLS[cfg.TLS]))
+	if cfg.HS == 1 {
+		r.Outcome("reached/stall-inside-handshake")
+	}
+	if blocks[0].Op == "write" {
+		r.Outcome("reached/write-side-stall")
+	}
+	if cfg.CtxDL {
+		r.Outcome("reached/caller-context-with-deadline")
+	}
+	if cfg.Entry == 4 {
+		r.Outcome("reached/after-idle-hour")
+	}
 	if verdict == "bounded" && opErr == nil {
 		add(fmt.Sprintf("stall-reported-as-success/op=%s/stalled-after=%s", entry, after),
 			fmt.Sprintf("%s returned nil although the server stopped responding after %s", entry, b.After))
@@ -325,6 +338,12 @@ func init() {
 					}
 				})
 			})
+			for _, e := range c17Entry {
+				for _, t := range c17TLS {
+					r.Reached(fmt.Sprintf("reached/stall/entry=%s/tls=%s", e, t))
+				}
+			}
+			r.Reached("reached/stall-inside-handshake", "reached/write-side-stall", "reached/caller-context-with-deadline", "reached/after-idle-hour", "follow/Reset/blocks=1", "follow/Send/blocks=1", "follow/Close/blocks=0")
 		},
 		Replay: func(r *vf.Run, kase json.RawMessage) {
 			var k c17Case
